@@ -1,1 +1,6 @@
+import PromVerif.Props.C06
+import PromVerif.Props.C07
+import PromVerif.Props.C10
+import PromVerif.Props.C11
 import PromVerif.Props.C13
+import PromVerif.Props.C19
